@@ -170,4 +170,85 @@ def decWfBody : Body → Bool
   | .derived _ parent _ _ items => decWfBody parent && decWfItems [] items
 end
 
+/-! ### what the equality "encoder model in reference mode = bit-level reference" relies on -/
+
+/-- the first array item with the given identifier -/
+def firstArray : Items → String → Option (Ty × ElemWidth)
+  | .nil, _ => none
+  | .cons (.array id elem ew _ _) r, t => if id == t then some (elem, ew) else firstArray r t
+  | .cons _ r, t => firstArray r t
+
+def arrayIds : Items → List String
+  | .nil => []
+  | .cons (.array id ..) r => id :: arrayIds r
+  | .cons _ r => arrayIds r
+
+/-- what the analyzer guarantees about a bit-field (E48: condition values are 0 / 1, E32: a fixed
+    value fits its width) and what `Pdlv.Resolve` normalises (`_body_` → `_payload_`) -/
+def bfOk : BitField → Bool
+  | .flag _ opts => opts.all (fun o => decide (o.2 ≤ 1))
+  | .fixed w c => decide (c < 2 ^ w)
+  | .size t _ _ => t != "_body_"
+  | .count _ w => decide (w ≤ 64)
+  | _ => true
+
+/-- the target of a count / size / element-size field is an array of the field list (E24, E27, E30) -/
+def targetOk (all : Items) : BitField → Bool
+  | .size t _ _ => t == "_payload_" || (firstArray all t).isSome
+  | .count t _ => (firstArray all t).isSome
+  | .elemSize t _ => (firstArray all t).isSome
+  | _ => true
+
+mutual
+/-- integer-valued element / field types are whole octets (E52 and the alignment rules); a field
+    is typed by a struct without parent -/
+def refWfTy : Ty → Bool
+  | .scalar w => w % 8 == 0
+  | .enumTy _ e => e.width % 8 == 0
+  | .custom _ w => w % 8 == 0
+  | .struct _ (.root _ items) => refWfItems items items && lenWfItems items && decide ((arrayIds items).Nodup)
+  | .struct _ (.derived ..) => false
+def refWfItem (all : Items) : Item → Bool
+  | .chunk fs => chunkBits fs % 8 == 0 && fs.all (fun f => bfOk f && targetOk all f)
+  | .typedef _ ty _ => refWfTy ty
+  | .optional _ ty _ _ => refWfTy ty
+  | .array _ elem _ _ _ => refWfTy elem && lenWfTy elem
+  | .payload _ => true
+def refWfItems (all : Items) : Items → Bool
+  | .nil => true
+  | .cons i r => refWfItem all i && refWfItems all r
+end
+
+/-- packets and structs without parent, and children of a packet without parent -/
+def refWfBody : Body → Bool
+  | .root _ items => refWfItems items items && lenWfItems items && decide ((arrayIds items).Nodup)
+  | .derived _ (.root _ pitems) _ _ items =>
+    refWfItems items items && lenWfItems items && decide ((arrayIds items).Nodup) &&
+    refWfItems pitems pitems && lenWfItems pitems && decide ((arrayIds pitems).Nodup) && pitems.hasPayload
+  | .derived _ (.derived ..) _ _ _ => false
+
+/-! ### array size modifiers (`x: T[+n]`), which the Rust back end ignores (KF-C03-array-size-modifier) -/
+
+def bfNoArrayMod : BitField → Bool
+  | .size t _ m => t == "_payload_" || t == "_body_" || m == 0
+  | _ => true
+
+mutual
+def noModTy : Ty → Bool
+  | .struct _ b => noModBody b
+  | _ => true
+def noModItem : Item → Bool
+  | .chunk fs => fs.all bfNoArrayMod
+  | .typedef _ ty _ => noModTy ty
+  | .optional _ ty _ _ => noModTy ty
+  | .array _ elem _ _ _ => noModTy elem
+  | .payload _ => true
+def noModItems : Items → Bool
+  | .nil => true
+  | .cons i r => noModItem i && noModItems r
+def noModBody : Body → Bool
+  | .root _ items => noModItems items
+  | .derived _ parent _ _ items => noModItems items && noModBody parent
+end
+
 end Pdlv
